@@ -24,7 +24,7 @@ NAME = "delta"
 DRIVER_SRCS = ["delta_driver.cpp"]
 MODEL_FAMILY = "delta"
 MODE = "diff"
-BUDGET = {"quick": 500, "thorough": 12000}
+BUDGET = {"quick": 500, "thorough": 8000}
 
 TS, SIGNAL, TSS, TSD, TSL, TSB, TSW = 1, 2, 3, 4, 5, 6, 7
 
@@ -315,6 +315,31 @@ def gen(rng, tier, prop):
     return case
 
 
+def enumerate_cases(prop):
+    """thorough tier: every history of two cycles (second one after a gap) with at most two mutations
+    each, over a small alphabet, for a handful of small schemas - all orderings, including every
+    erase / re-insert / child-tick interleaving"""
+    import itertools
+    menus = [
+        ([TSS], [([], 3, 0), ([], 3, 1), ([], 4, 0), ([], 4, 1), ([], 5, 0), ([], 6, 0)]),
+        ([TSD, TS], [([0], 1, 1), ([0], 1, 2), ([1], 1, 3), ([], 7, 0), ([], 7, 1), ([], 8, 0), ([], 5, 0), ([], 6, 0)]),
+        ([TSD, TSS], [([0], 3, 0), ([0], 4, 0), ([0], 3, 1), ([1], 3, 0), ([], 7, 0), ([], 8, 0), ([], 6, 0)]),
+        ([TSB, 2, TSS, TS], [([0], 3, 0), ([0], 4, 0), ([0], 5, 0), ([1], 1, 1), ([1], 1, 2)]),
+        ([TSD, TSD, TS], [([0, 0], 1, 1), ([0, 1], 1, 2), ([0], 7, 0), ([0], 8, 1), ([], 7, 0), ([1, 0], 1, 3)]),
+        ([TSL, 2, TSS], [([0], 3, 0), ([0], 4, 0), ([1], 3, 0), ([1], 5, 0)]),
+    ]
+    for toks, alpha in menus:
+        seqs = [()] + [(a,) for a in alpha] + list(itertools.product(alpha, alpha))
+        for s1 in seqs[1:]:
+            for s2 in seqs:
+                case = [[1, 0, 1, 6], [2] + toks]
+                for (path, op, arg) in s1:
+                    case.append([3, 1, len(path)] + list(path) + [op, arg])
+                for (path, op, arg) in s2:
+                    case.append([3, 3, len(path)] + list(path) + [op, arg])
+                yield case
+
+
 # ---------------------------------------------------------------- decoding of observations
 def parse_case(case):
     hdr = None
@@ -465,9 +490,28 @@ def _is_empty_collection(sh, n):
     return False
 
 
-def _diff(sh, a, b, d, out, in_bundle):
+def _cycle_info(ops, t):
+    """what the script did in cycle t, for the finding signatures: keys erased / created, dicts cleared"""
+    erased, created, cleared = set(), set(), set()
+    for (tt, path, op, arg) in ops:
+        if op == 8 and tt <= t:
+            created.add((tuple(path), arg))     # a key created without a value stays unset until it gets one
+        if tt != t:
+            continue
+        if op == 7:
+            erased.add((tuple(path), arg))
+        elif op == 6:
+            cleared.add(tuple(path))
+    return {"erased": erased, "created": created, "cleared": cleared, "self": False}
+
+
+def _diff(sh, a, b, d, out, in_bundle, path=(), cyc=None):
     """explain every difference between the ticking original `a` (its delta `d`) and the re-created `b`;
-    appends failure kinds to `out`; returns True when this subtree differs in any way"""
+    appends failure kinds to `out`; returns True when this subtree differs in any way.
+    `path`/`cyc`: where we are and what the script did this cycle - findings C and D are only
+    recognised when the script really created a key without a value / erased the key this cycle"""
+    if cyc is None:
+        cyc = {"erased": set(), "created": set(), "cleared": set(), "self": False}
     k = sh.kind
     before = len(out)
     differs = False
@@ -479,19 +523,20 @@ def _diff(sh, a, b, d, out, in_bundle):
         dm = d["modified"] if d else {}
         for key, ca in a["items"].items():
             cb = b["items"].get(key)
-            if not ca["valid"] and cb is None:
-                out.append(K_UNSET)          # key exists, child never became valid: not in the delta
+            if not ca["valid"] and (cb is None or cyc["self"]) and (path, key) in cyc["created"]:
+                out.append(K_UNSET)          # key created without a value: in the value, not in the delta
                 differs = True
                 continue
-            if ca["mod"] and ca["valid"] and key not in dm and d is not None:
-                out.append(K_RESURRECT)      # the child changed this cycle but the dictionary's delta omits it
+            if ca["mod"] and ca["valid"] and key not in dm and d is not None and \
+                    ((path, key) in cyc["erased"] or path in cyc["cleared"]):
+                out.append(K_RESURRECT)      # child changed, key erased and re-inserted: the delta omits it
                 differs = True
                 continue
             if cb is None:
                 out.append(K_VALUE)
                 differs = True
                 continue
-            if _diff(sh.kids[0], ca, cb, dm.get(key), out, False):
+            if _diff(sh.kids[0], ca, cb, dm.get(key), out, False, path + (key,), cyc):
                 differs = True
         for key in b["items"]:
             if key not in a["items"]:
@@ -500,12 +545,12 @@ def _diff(sh, a, b, d, out, in_bundle):
     elif k == TSL:
         di = d["items"] if d else {}
         for i, (ca, cb) in enumerate(zip(a["kids"], b["kids"])):
-            if _diff(sh.kids[0], ca, cb, di.get(i), out, False):
+            if _diff(sh.kids[0], ca, cb, di.get(i), out, False, path + (i,), cyc):
                 differs = True
     elif k == TSB:
         df = d["fields"] if d else [None] * len(sh.kids)
-        for f, ca, cb, cd in zip(sh.kids, a["kids"], b["kids"], df):
-            if _diff(f, ca, cb, cd, out, True):
+        for i, (f, ca, cb, cd) in enumerate(zip(sh.kids, a["kids"], b["kids"], df)):
+            if _diff(f, ca, cb, cd, out, True, path + (i,), cyc):
                 differs = True
     elif k == TS:
         if a["valid"] != b["valid"] or (a["valid"] and a["v"] != b["v"]):
@@ -605,7 +650,7 @@ def oracle(prop, case, impl_out):
                 eq, cmod, deq = cmp_[t]
                 kinds = []
                 # post == apply(pre, delta): same validity, contents and ticks everywhere
-                differs = _diff(sh, a, b, d, kinds, False)
+                differs = _diff(sh, a, b, d, kinds, False, (), _cycle_info(ops, t))
                 if (not eq or differs) and not kinds:
                     kinds.append(K_VALUE)
                 # delta2 == delta
@@ -647,7 +692,7 @@ def oracle(prop, case, impl_out):
                 if rt not in rsrc:
                     # a change that the captured delta does not carry (K_UNSET / K_RESURRECT)?
                     kinds = []
-                    _diff(sh, a, a, d, kinds, False)
+                    _diff(sh, a, a, d, kinds, False, (), dict(_cycle_info(ops, t), self=True))
                     if kinds:
                         for kd in sorted(set(kinds)):
                             fails.append((kd, "t=%d not replayed" % t))
@@ -660,7 +705,7 @@ def oracle(prop, case, impl_out):
                     continue
                 b, _ = dec_state(sh, rsrc[rt], 0)
                 kinds = []
-                differs = _diff(sh, a, b, d, kinds, False)
+                differs = _diff(sh, a, b, d, kinds, False, (), _cycle_info(ops, t))
                 if differs and not kinds:
                     kinds.append(K_VALUE)
                 if not _content_equal(sh, a, b):
